@@ -165,7 +165,12 @@ pub fn suite_cache(rng: &mut Rng, cases: u64, t: &mut Trace, pname: &str) {
     for id in 0..cases {
         t.case(id, p.name);
         let cfg = gen_config(rng, &p);
-        let mut case = match Case::new(sched.clone(), cfg.clone(), p.nclients) {
+        let flags = crate::monitors::Flags {
+            exact_map: p.name == "cacheq",
+            collisions: p.collisions,
+            quiescent_profile: p.quiescent,
+        };
+        let mut case = match Case::new(sched.clone(), cfg.clone(), p.nclients, id, flags) {
             Ok(c) => c,
             Err(e) => {
                 t.step(&format!("cnew-failed {}", e));
@@ -242,7 +247,8 @@ pub fn replay_cache(path: &str, t: &mut Trace) {
             match toks[0] {
                 "cnew" => {
                     let cfg = parse_cnew(&toks);
-                    match Case::new(sched.clone(), cfg.clone(), 4) {
+                    let flags = crate::monitors::Flags { exact_map: false, collisions: true, quiescent_profile: false };
+                    match Case::new(sched.clone(), cfg.clone(), 4, 0, flags) {
                         Ok(c) => {
                             t.step(&cnew_line(&cfg, c.item_size));
                             t.obs("ok");
